@@ -521,6 +521,55 @@ fn emit_tag(
     Ok(())
 }
 
+/// Emits the text of a choice (the part before `[`, inside `[ ]` or after `]`), which
+/// is ordinary mixed text and logic: prints, inline conditionals, sequences, glue.
+/// The tokens are appended to `out`, the content of the container at `scope.path`.
+fn emit_choice_text_nodes(
+    text: &str,
+    out: &mut Vec<Value>,
+    scope: &EmitScope,
+    context: &EmitContext,
+) -> Result<(), CompilerError> {
+    for node in tokenize_inline_content(text)? {
+        match node {
+            Node::Text(text) => out.push(json!(format!("^{text}"))),
+            Node::OutputExpression(expression) => {
+                out.push(json!("ev"));
+                emit_expression_ctx(&expression, out, Some(context), Some(scope));
+                out.push(json!("out"));
+                out.push(json!("/ev"));
+            }
+            Node::Glue => out.push(json!("<>")),
+            Node::Tag(tag) => emit_tag(&tag, out, scope, context)?,
+            Node::Sequence(sequence) => {
+                let index = out.len() + scope.param_offset;
+                out.push(emit_sequence(&sequence, scope, index, context)?);
+            }
+            Node::Conditional {
+                condition,
+                when_true,
+                when_false,
+            } => {
+                let index = out.len() + scope.param_offset;
+                out.extend(emit_conditional(
+                    &condition,
+                    &when_true,
+                    when_false.as_deref(),
+                    scope,
+                    index,
+                    context,
+                )?);
+            }
+            other => {
+                return Err(CompilerError::unsupported_feature(format!(
+                    "unsupported content in the text of a choice: {other:?}"
+                )));
+            }
+        }
+    }
+    Ok(())
+}
+
 fn emit_choice_text_segment(
     text: &str,
     tags: &[DynamicString],
@@ -533,21 +582,7 @@ fn emit_choice_text_segment(
     }
 
     out.push(json!("str"));
-    if !text.is_empty() {
-        // Parse the text for inline {expr} and {&sequence} interpolations
-        let dynamic = parse_dynamic_string(text).unwrap_or_else(|_| DynamicString {
-            parts: vec![DynamicStringPart::Text(text.to_owned())],
-        });
-        let has_inline = dynamic
-            .parts
-            .iter()
-            .any(|p| !matches!(p, DynamicStringPart::Text(_)));
-        if has_inline {
-            emit_dynamic_string_parts(&dynamic.parts, out, scope, context)?;
-        } else {
-            out.push(json!(format!("^{text}")));
-        }
-    }
+    emit_choice_text_nodes(text, out, scope, context)?;
     for tag in tags {
         emit_tag(tag, out, scope, context)?;
     }
@@ -562,24 +597,7 @@ fn emit_choice_text_content(
     scope: &EmitScope,
     context: &EmitContext,
 ) -> Result<(), CompilerError> {
-    if text.is_empty() && tags.is_empty() {
-        return Ok(());
-    }
-
-    if !text.is_empty() {
-        let dynamic = parse_dynamic_string(text).unwrap_or_else(|_| DynamicString {
-            parts: vec![DynamicStringPart::Text(text.to_owned())],
-        });
-        let has_inline = dynamic
-            .parts
-            .iter()
-            .any(|p| !matches!(p, DynamicStringPart::Text(_)));
-        if has_inline {
-            emit_dynamic_string_parts(&dynamic.parts, out, scope, context)?;
-        } else {
-            out.push(json!(format!("^{text}")));
-        }
-    }
+    emit_choice_text_nodes(text, out, scope, context)?;
     for tag in tags {
         emit_tag(tag, out, scope, context)?;
     }
